@@ -13,6 +13,10 @@ CHECKS = {
    technique='property-based testing: transaction-dense block trees on real nodes; oracle = full column scans vs reference-model replay of the main chain (both directions), reader-sampled snapshots, and a linear-replay twin node compared byte for byte',
    text='At every quiescent point of generated reorg histories the node\'s live-cell, cell-data, tx-location, number<->hash and included-uncle columns are scanned completely and compared with the reference model\'s replay of the main chain, together with tip, epoch, per-block epoch/ext records and the chain root; snapshots sampled concurrently by a reader thread get the same comparison; at the end a second node that only ever saw the final main chain must hold byte-identical columns and block exts.',
    note='Snapshot instants are sampled, not enumerated. The replay definition is the reference model (validated by the node accepting its blocks).'),
+ 'C03': dict(level='exploration', ref='DESIGN.md §2 C03',
+   technique='property-based testing with a mutation-operator catalogue: boundary-valid candidates and single-rule violations (all other commitments re-sealed by the reference model) through the miner submit pipeline of a real node; verdict oracle + whole-attempt refusal (full state scan unchanged, descendants refused)',
+   text='A generated valid history brings a real node to a context; then candidates are built on the tip or on a side branch: boundary-valid ones (must be attached) and 63 single-rule mutations (must be refused, state unchanged by full column scan, block remembered invalid, descendants refused even when they make the branch heaviest). Because the reference model recomputes reward, DAO, roots and chain root for the mutated body, exactly the targeted rule is broken, so a dropped check in the node shows up as an accepted candidate.',
+   note='Dummy PoW; size/cycle limits at the exact boundary are not generated. The catalogue is finite: rules without an operator are not exercised.'),
  'C05': dict(level='exploration', ref='DESIGN.md §2 C05',
    technique='metamorphic property-based testing: one-shot script run vs chunked / resumed / signalled runs over generated RV64 programs and repository test binaries, exhaustive split-point sweeps for small programs',
    text='Programs (repository spawn/exec/load binaries driven by generated data, plus generated C programs compiled to RV64 at check time) are run once with an unlimited budget and then under generated chunk schedules, state resumes, complete() and pause/resume/stop signals and budgets around the exact cost; verdict and cycles must agree. Small programs get every split point (and every pair for tiny ones).',
